@@ -48,11 +48,11 @@ Print Assumptions to_go_fills_all.
 Theorem to_go_fills_all_ptr : forall f te cur id tn fs st d loc st',
     cache_find id st = None -> find_reg te tn = Some d ->
     conv (S f) te false (TPtr (s_name d)) cur (SRec id tn fs) st = Ok (GPtr (Some loc), st') ->
-    paths_independent (res_paths (resolve f te (s_name d)) fs) = true ->
+    paths_independent (res_paths (resolve_key f te (s_name d)) fs) = true ->
     exists obj, nth_error (heap st') loc = Some obj /\
       forall k v, In (k, v) fs ->
         exists path sty curv st1 nv st2,
-          resolve f te (s_name d) k = Some path /\ type_at te (TStruct (s_name d)) path = Some sty /\
+          resolve_key f te (s_name d) k = Some path /\ type_at te (TStruct (s_name d)) path = Some sty /\
           conv f te false sty curv v st1 = Ok (nv, st2) /\ get_path obj path = Some nv.
 Proof. exact GoConvProofs.to_go_fills_all_ptr. Qed.
 Print Assumptions to_go_fills_all_ptr.
@@ -73,7 +73,7 @@ Print Assumptions to_go_shares_ptr_then_iface.
 
 Theorem unknown_field_is_error : forall f te top ty cur id tn fs st d k v r,
     cache_find id st = None -> find_reg te tn = Some d ->
-    In (k, v) fs -> resolve f te (s_name d) k = None ->
+    In (k, v) fs -> resolve_key f te (s_name d) k = None ->
     conv (S f) te top ty cur (SRec id tn fs) st <> Ok r.
 Proof. exact unknown_field_err. Qed.
 Print Assumptions unknown_field_is_error.
@@ -260,8 +260,8 @@ Theorem from_go_to_go_scalar_fragment : forall f te T d reg,
     find_struct te T = Some d -> s_reg d = Some reg -> scalar_decl d = true ->
     forall id tn fs,
       find_reg te tn = Some d -> s_name d = T ->
-      good_fs f te T d fs -> paths_independent (res_paths (resolve (S f) te T) fs) = true ->
-      echo (S (S f)) te T (SRec id tn fs) = Ok (expect (resolve (S f) te T) reg (s_fields d) fs).
+      good_fs f te T d fs -> paths_independent (res_paths (resolve_key (S f) te T) fs) = true ->
+      echo (S (S f)) te T (SRec id tn fs) = Ok (expect (resolve_key (S f) te T) reg (s_fields d) fs).
 Proof. exact round_trip_scalar. Qed.
 Print Assumptions from_go_to_go_scalar_fragment.
 
@@ -269,12 +269,12 @@ Theorem hist_reflects_current : forall f te ops tname id tn fs d loc h' sh',
     find_reg te tn = Some d -> s_name d = tname ->
     hist_convert (S f) te true tname id (SRec id tn fs) (fst (hist_run (S f) te ops)) (snd (hist_run (S f) te ops))
       = Ok (GPtr (Some loc), (h', sh')) ->
-    paths_independent (res_paths (resolve f te tname) fs) = true ->
+    paths_independent (res_paths (resolve_key f te tname) fs) = true ->
     shadow_find id sh' = Some loc /\
     exists obj, nth_error h' loc = Some obj /\
       forall k v, In (k, v) fs ->
         exists path sty curv st1 nv st2,
-          resolve f te tname k = Some path /\ type_at te (TStruct tname) path = Some sty /\
+          resolve_key f te tname k = Some path /\ type_at te (TStruct tname) path = Some sty /\
           conv f te false sty curv v st1 = Ok (nv, st2) /\ get_path obj path = Some nv.
 Proof. exact GoConvHist.hist_reflects_current. Qed.
 Print Assumptions hist_reflects_current.
@@ -293,8 +293,8 @@ Print Assumptions hist_failed_conversion_leaves_nothing.
 
 (* non-vacuity of the round trip theorem: D = Deep{P int64} of the example table is in the fragment *)
 Example round_trip_example :
-  echo 9 te_ex nD (SRec 0 [100] [([112], SInt 42)]) = Ok (expect (resolve 8 te_ex nD) [100] [mkField [80] None false TInt] [([112], SInt 42)])
-  /\ expect (resolve 8 te_ex nD) [100] [mkField [80] None false TInt] [([112], SInt 42)] = SRec 0 [100] [([80], SInt 42)].
+  echo 9 te_ex nD (SRec 0 [100] [([112], SInt 42)]) = Ok (expect (resolve_key 8 te_ex nD) [100] [mkField [80] None false TInt] [([112], SInt 42)])
+  /\ expect (resolve_key 8 te_ex nD) [100] [mkField [80] None false TInt] [([112], SInt 42)] = SRec 0 [100] [([80], SInt 42)].
 Proof. split; vm_compute; reflexivity. Qed.
 
 (* non-vacuity of the sharing theorem: in the conversion of (flat a:1 p:l s:l), l = (leaf n:7), the conversions of l
@@ -318,3 +318,20 @@ Proof.
     eapply (sub_field te_ex 8 true (TStruct nF) zF 1 [102] [([97], SInt 1); ([112], leaf7)] ([115], leaf7) []);
       vm_compute; reflexivity.
 Qed.
+
+(* ---- fourth round: keys that are not symbols or strings ------------------------------------------- *)
+
+Theorem non_name_key_is_error : forall f te top ty cur id tn fs st d k v r,
+    cache_find id st = None -> find_reg te tn = Some d ->
+    In (k, v) fs -> nonname_key k = true ->
+    conv (S f) te top ty cur (SRec id tn fs) st <> Ok r.
+Proof. exact nonname_key_err. Qed.
+Print Assumptions non_name_key_is_error.
+
+(* (def l (leaf n:7)) (hset l 5 1): the entry with the integer key 5 (encoded 0 :: "I5") makes (togo l) an error,
+   at top level and inside a nested record, in the model and by the specification *)
+Example int_key_is_error :
+  to_go 9 te_ex nL (SRec 0 [108] [([110], SInt 7); ([0; 73; 53], SInt 1)]) = Err
+  /\ spec_to_go 9 te_ex nL (SRec 0 [108] [([110], SInt 7); ([0; 73; 53], SInt 1)]) = SErr 1
+  /\ to_go 9 te_ex nF (SRec 1 [102] [([112], SRec 0 [108] [([0; 67; 57; 55], SInt 1)])]) = Err.
+Proof. repeat split; vm_compute; reflexivity. Qed.
